@@ -57,6 +57,23 @@ add("C20", "pure", "exploration",
     "Trusts the Go race detector and regexp word-boundary semantics; schedules are sampled, not enumerated.",
     "DESIGN.md section 3, C20")
 
+add("C06", "pipe", "exploration",
+    "property-based testing (rapid): recording generators on generated modules, call log compared with a reference enablement lattice computed from the harness's own module description",
+    "Synthetic modules with every declaration kind and tags at global/package/declaration level are run through gengo with recording Generator/AliasGenerator "
+    "implementations (prefix-related names, with/without New, Defer registrations). The multiset of (generator, package, type) calls must equal the set derived "
+    "from the spec by a reference lattice; locals, type parameters, aliases-through-GenerateType, foreign types are rejected; Defer callbacks run once, after the last "
+    "GenerateType of their (package, generator) and while the output file still has its pre-run content.",
+    "Trusts the harness module renderer and reference lattice; repeated keys within one comment and conflicting package tags across files are not generated.",
+    "DESIGN.md section 3, C06")
+
+add("C07", "pipe", "exploration",
+    "property-based testing (rapid): byte snapshots of the whole module tree before/after each run of generated run histories",
+    "Modules with user files, look-alike names, stale and previous outputs, README and old gengo.sum are run 1-3 times with varying generator sets/behaviours, "
+    "entrypoint subsets and All/Force; every changed path must be <base>.* directly inside a processed package or gengo.sum (only with All); per generator the "
+    "file exists iff it rendered, ErrIgnore-and-nothing keeps the previous bytes, stale <base>.*.go files are gone.",
+    "Cache skips in All-without-Force runs are observed (no generator call), not modelled here (C08 models them).",
+    "DESIGN.md section 3, C07")
+
 ALL = ["C%02d" % i for i in range(1, 21)]
 
 def main():
